@@ -110,6 +110,20 @@ def check_result(t, V0, F0, visual, n, key, case, tol=0.0, use_attr=True, expect
 
     if len(F1) and (F1.max() >= len(V1) or F1.min() < 0):
         return bad("faces index a vertex that does not exist", {"faces": F1, "n_vertices": len(V1)})
+    if visual == "face" and len(F1):
+        # the colours the result reports for its faces must still be the colours of those faces, whatever
+        # representation the visual switched to internally (a per-face value must not come back averaged)
+        try:
+            c = np.asarray(n.visual.face_colors)
+        except Exception as e:
+            return bad(f"reading face colours raises {type(e).__name__}", {"exc": repr(e)[:200]})
+        ref = None
+        if use_attr and "tag" in n.face_attributes and len(n.face_attributes["tag"]) == len(F1):
+            ref = np.asarray(n.face_attributes["tag"]).astype(int)
+        elif expect_face_tags is not None and len(expect_face_tags) == len(F1):
+            ref = np.asarray(list(expect_face_tags), dtype=int)
+        if ref is not None and (c.shape[0] != len(F1) or (c[:, 0].astype(int) - 10 != ref).any()):
+            return bad("face colours are no longer the colours of the same faces", {"colour_tags": (c[:, 0].astype(int) - 10).tolist() if len(c) else [], "faces": ref.tolist(), "visual_kind": n.visual.kind})
     ft = face_tags(n, visual, use_attr)
     if ft is not None:
         if len(ft) != len(F1):
